@@ -1253,9 +1253,32 @@ def _loop_of(brk, loop):
     return True
 
 
-def _eliminate_attr_aliases(fn):
+_SETUP_METHODS = ("__init__", "__attrs_post_init__", "wire")
+
+
+def _stable_attrs_by_class(mod):
+    """class name -> attributes of self that are assigned ONLY in the set-up methods (constructor, wire()): they denote one object for
+    the whole life of the instance, so a bound method looked up through them once (`tx = self._RC.tx_add`) is the method every later
+    lookup would have found - also across re-entrant calls."""
+    out = {}
+    for c in ast.walk(mod):
+        if not isinstance(c, ast.ClassDef):
+            continue
+        setup, later = set(), set()
+        for f in c.body:
+            if not isinstance(f, (ast.FunctionDef, ast.AsyncFunctionDef)):
+                continue
+            for t in ast.walk(f):
+                if isinstance(t, ast.Attribute) and isinstance(t.ctx, (ast.Store, ast.Del)) and isinstance(t.value, ast.Name) and t.value.id == "self":
+                    (setup if f.name in _SETUP_METHODS else later).add(t.attr)
+        out[c.name] = setup - later
+    return out
+
+
+def _eliminate_attr_aliases(fn, stable=frozenset()):
     """x = self.attr   (x bound exactly once, self.attr never rebound in the function)  ->  uses of x replaced by self.attr.
-    The alias denotes the same object throughout, so every read and every method call through it is one on the attribute."""
+    The alias denotes the same object throughout, so every read and every method call through it is one on the attribute.
+    Also x = self.attr.method for an attribute that is assigned in the set-up methods only (`stable`): a bound method hoisted out of a loop."""
     n = 0
     binds = {}
     for node in ast.walk(fn):
@@ -1268,9 +1291,13 @@ def _eliminate_attr_aliases(fn):
                      and isinstance(t.value, ast.Name) and t.value.id == "self"}
     for lst in _stmt_lists(fn):
         for st in list(lst):
+            one_level = isinstance(st, ast.Assign) and isinstance(st.value, ast.Attribute) and isinstance(st.value.value, ast.Name) \
+                and st.value.value.id == "self" and st.value.attr not in rebound_attrs
+            two_level = isinstance(st, ast.Assign) and isinstance(st.value, ast.Attribute) and isinstance(st.value.value, ast.Attribute) \
+                and isinstance(st.value.value.value, ast.Name) and st.value.value.value.id == "self" and st.value.value.attr in stable \
+                and st.value.value.attr not in rebound_attrs
             if isinstance(st, ast.Assign) and len(st.targets) == 1 and isinstance(st.targets[0], ast.Name) \
-                    and isinstance(st.value, ast.Attribute) and isinstance(st.value.value, ast.Name) and st.value.value.id == "self" \
-                    and binds.get(st.targets[0].id) == 1 and st.value.attr not in rebound_attrs:
+                    and (one_level or two_level) and binds.get(st.targets[0].id) == 1:
                 name = st.targets[0].id
                 # nested functions / lambdas capturing the alias keep it (late binding is the same object, but stay conservative)
                 captured = any(isinstance(x, ast.Name) and x.id == name for f2 in ast.walk(fn)
@@ -1303,13 +1330,14 @@ def normalize_idioms(asts, ref):
         if runits is None:
             continue
         changed = False
+        stable_by_cls = _stable_attrs_by_class(mod)
         for k, fn in _units(mod).items():
             if k[0] not in ("meth", "fn"):
                 continue
             r = runits.get("|".join(k))
             if r is not None and r[0] == sig_of(fn).shape:
                 continue
-            n = _eliminate_attr_aliases(fn)
+            n = _eliminate_attr_aliases(fn, stable_by_cls.get(k[1], frozenset()) if k[0] == "meth" else frozenset())
             for _ in range(3):
                 _relink(mod, rel)
                 m = sum(_norm_block(lst, fn) for lst in _stmt_lists(fn))
